@@ -18,7 +18,7 @@ COMMON_NOTE = ("Trusted: Lean kernel; axioms propext/Classical.choice/Quot.sound
 
 CHECKS = {
     "C05": {
-        "text": "25 theorems + 6 source ties over every linearly ordered field: signed_distance = (p-ref).n, sign/in-front/on-or-in-front "
+        "text": "25 theorems + 7 source ties over every linearly ordered field: signed_distance = (p-ref).n, sign/in-front/on-or-in-front "
                 "classification and the two partitions for every point list, projection/mirror/flip laws (general normal and unit normal), "
                 "equation/canonical point, module-level functions = methods, stacked = row-wise. The model is tied to the code by "
                 "executing it (exact rationals and doubles) against the real Plane methods and module functions on lattice and float streams.",
@@ -56,7 +56,7 @@ CHECKS = {
         "note": COMMON_NOTE + "np.bincount/cumsum/where modelled as list functions; idempotence needs every face selected (unselected faces behind the plane are kept by design and would be dropped by a full re-slice); dtypes are observed tags.",
     },
     "C06": {
-        "text": "41 theorems + 8 source ties (all in full; the code-shaped runs/vsplit slicer = span-shaped slicer = declarative unique-run spec, cyclic for closed polylines via the roll+append reduction, for every vertex list over every ordered field; crossing computed from the same signed distances that decide the sides, as the repaired code does): result = entry ++ run ++ exit with on-plane neighbour or a crossing a+t(b-a), t in [0,1) resp. (0,1], on the plane; interior vertices are an infix of the input; no row behind the plane; result open; ValueError exactly when no unique run exists; the same kernel run on signs observed from the implementation refines the same spec. Tie: exhaustive enumeration of all front/on/behind sign sequences (len 0..6 quick, 0..9 thorough, open and closed) at exact rationals, float stream, and a near-plane stream (vertices within a few ulps of the plane, signs taken from the implementation) checking finiteness / on-segment / not-behind.",
+        "text": "41 theorems + 10 source ties (all in full; the code-shaped runs/vsplit slicer = span-shaped slicer = declarative unique-run spec, cyclic for closed polylines via the roll+append reduction, for every vertex list over every ordered field; crossing computed from the same signed distances that decide the sides, as the repaired code does): result = entry ++ run ++ exit with on-plane neighbour or a crossing a+t(b-a), t in [0,1) resp. (0,1], on the plane; interior vertices are an infix of the input; no row behind the plane; result open; ValueError exactly when no unique run exists; the same kernel run on signs observed from the implementation refines the same spec. Tie: exhaustive enumeration of all front/on/behind sign sequences (len 0..6 quick, 0..9 thorough, open and closed) at exact rationals, float stream, and a near-plane stream (vertices within a few ulps of the plane, signs taken from the implementation) checking finiteness / on-segment / not-behind.",
         "note": COMMON_NOTE + "np.roll/vsplit/sign modelled as list functions. In the near-plane stream the side of a vertex is whatever plane.sign() says (not determined by exact arithmetic).",
     },
     "C15": {
@@ -71,14 +71,14 @@ CHECKS = {
         "note": COMMON_NOTE + "np.argmin first-index rule modelled. Two distinct query points closer than the 1e-8 vertex-matching tolerance are outside the proved sub-path theorem (the code returns a one-vertex polyline) and not generated.",
     },
     "C09": {
-        "text": "37 theorems + 6 source ties (all in full): edges/num_e/segments, flipped involution, rolled for any integer index incl. its edge mapping, sliced_at_indices (wrap / reversed -> ValueError), sectioned, join, "
+        "text": "37 theorems + 7 source ties (all in full): edges/num_e/segments, flipped involution, rolled for any integer index incl. its edge mapping, sliced_at_indices (wrap / reversed -> ValueError), sectioned, join, "
                 "NumPy-insert semantics with a declarative characterisation and the repaired index maps for every index list in -num_v..num_v with repeats (new[orig_idx[j]] = old[j], new[ins_idx[m]] = points[m]), "
                 "index_of_vertex lowest match, apex first arg-max, bounding_box, aligned_with, and the error classes. Tie: random operation programs (each op applied to earlier results) with the whole "
                 "program replayed in the model; immutability / read-only flags / no aliasing observed after every op; exhaustive insertion multisets n<=4,k<=3.",
         "note": COMMON_NOTE + "read-only flags, fresh-copy and aliasing observations are runtime tags, not theorems. Insertion indices below -num_v are outside the property and not generated.",
     },
     "C14": {
-        "text": "29 theorems + 6 source ties (all in full, any ordered field, no unit-normal hypothesis): the coordinate-wise bounds test rejects iff the line parameter is outside [0,1] (axis-parallel equal coordinates included); "
+        "text": "29 theorems + 7 source ties (all in full, any ordered field, no unit-normal hypothesis): the coordinate-wise bounds test rejects iff the line parameter is outside [0,1] (axis-parallel equal coordinates included); "
                 "for endpoints strictly on opposite sides all four routines return a + (d_a/(d_a-d_b))(b-a), the unique point of the segment with signed distance 0, polyline entries one per crossing edge with ascending "
                 "edge indices; same side -> None / NaN row / no entry; exactly one endpoint on the plane -> that endpoint from the three segment routines; line form unique point / None for parallel; stacked = map. "
                 "Tie: exact lattice segments vs lattice planes (thorough: every ordered pair of {-2..2}^3 against 10 planes), float stream with margins.",
@@ -89,7 +89,7 @@ CHECKS = {
         "note": COMMON_NOTE + "json.dumps/loads and jsonschema are external (compared, not verified); np.around's float multiply/divide compared with tolerance, exact ties where the float product is inexact (e.g. 0.15 at 1 decimal) are dropped as undetermined.",
     },
     "C18": {
-        "text": "38 theorems + 5 source ties + 2 defect witnesses (all in full): projection onto a line lands on the line, residual perpendicular, norm-closest and unique (algebraic form over any ordered field, vg.normalize form over R), "
+        "text": "38 theorems + 6 source ties + 2 defect witnesses (all in full): projection onto a line lands on the line, residual perpendicular, norm-closest and unique (algebraic form over any ordered field, vg.normalize form over R), "
                 "single / many-to-one / pairwise / one-to-many = row-wise; Line rejects almost-zero directions (model of vg.almost_zero); the faithful model of intersect_lines (|h|/|k|, sign of h.k, "
                 "shortcuts incl. the dead duplicate) equals the sqrt-free closed form p0 - ((h.k)/(k.k)) e, which is sound (a returned point lies on both lines) and complete (a unique common point is "
                 "returned for every incidence pattern of the four points; None for parallel/collinear/skew); 2-D: Cramer, None iff det = 0, sound and complete for any solver meeting the contract. "
@@ -106,7 +106,7 @@ CHECKS = {
         "note": COMMON_NOTE + "Tag names that collide with attribute/method names of the class (e.g. 'flip', '_points') are not generated (recorded assumption).",
     },
     "C08": {
-        "text": "45 theorems + 7 source ties (all in full): segment lengths / total / length-weighted centroid (R); point_along_path: lies on the first segment with cum_i <= fL < cum_{i+1}, equals an independent arc-length walk for every f in [0,1], f=0 first vertex, f=1 last vertex (first again if closed), junction matching and a global Lipschitz bound (continuity); subdivide_segment = linspace, subdivide_segments without NaN on zero-length segments, both length preserving; subdivided_by_length: original vertices at the returned indices, inserted points a+(k/n)(b-a) with n = ceil(len/max) least with len/n <= max, unselected/short edges untouched, closedness and total length kept; with_segments_bisected: positions, index maps, and total length unchanged (midpoint split, repeated indices as zero-length segments, rotation invariance of the closed length). Tie: Float + exact rationals on rational-length chains, thresholds, masks, stacked fractions incl. 0 and 1.",
+        "text": "45 theorems + 8 source ties (all in full): segment lengths / total / length-weighted centroid (R); point_along_path: lies on the first segment with cum_i <= fL < cum_{i+1}, equals an independent arc-length walk for every f in [0,1], f=0 first vertex, f=1 last vertex (first again if closed), junction matching and a global Lipschitz bound (continuity); subdivide_segment = linspace, subdivide_segments without NaN on zero-length segments, both length preserving; subdivided_by_length: original vertices at the returned indices, inserted points a+(k/n)(b-a) with n = ceil(len/max) least with len/n <= max, unselected/short edges untouched, closedness and total length kept; with_segments_bisected: positions, index maps, and total length unchanged (midpoint split, repeated indices as zero-length segments, rotation invariance of the closed length). Tie: Float + exact rationals on rational-length chains, thresholds, masks, stacked fractions incl. 0 and 1.",
         "note": COMMON_NOTE + "np.cumsum/argmax/ceil/linspace/insert modelled as list functions.",
     },
     "C10": {
